@@ -1514,9 +1514,6 @@ class Interp:
         if isinstance(v, Struct):
             if a in v.f:
                 return v.f[a]
-            if '__missing__' in v.f and not a.startswith('__'):
-                v.f[a] = v.f['__missing__'](a)       # a mock object: unknown attributes are fresh symbols
-                return v.f[a]
             if a == '__dict__':
                 return dict(v.f)
             if a == 'vmap':
@@ -1537,6 +1534,9 @@ class Interp:
                 ga = find_method(home, v.cls, '__getattr__')
                 if ga:
                     return self.call_closure(Closure(ga[1], None, ga[0], v.cls + '.__getattr__', bound=v, owner=(ga[0], ga[2])), [a], {})
+            if '__missing__' in v.f and not a.startswith('__'):
+                v.f[a] = v.f['__missing__'](a)       # a mock object: unknown data attributes are fresh symbols
+                return v.f[a]
             raise OutOfFragment('struct attr %s.%s' % (v.cls, a))
         if isinstance(v, VmapProxy):
             if a == 'vmap':
